@@ -40,7 +40,9 @@ def check(tier, replay=None):
     r.proof(proof, "lake build AscentVerif.Props.C01 && #audit_module (axioms of every theorem)" + (" && lake env leanchecker" if tier == "thorough" else ""))
     nprog = 24 if tier == "quick" else 120
     ninp = 12 if tier == "quick" else 60
-    plist = engcheck.make_programs(rng, nprog)
+    plist = engcheck.make_programs(rng, nprog - nprog // 4)
+    # quota: a quarter of the programs have a recursive multi-head rule with a head relation that only a later stratum reads
+    plist += engcheck.make_programs(rng.fork("sidehead"), nprog // 4, genf=lambda g: gen.gen_program(g, {"shape": "sidehead"}), filt=lambda p: len(p["rels"]) >= 4)
     progs = {f"p{i}": p for i, p in enumerate(plist)}
     cases = []
     for ci, (fn, c) in enumerate(core.corpus("C01")):
